@@ -249,6 +249,8 @@ def check(ctx):
             for pn in ("ben", "linux", "gnu-indent", "kr-indent", "sun", "freebsd"):
                 if pn in P:
                     G(pr, lang, "ws(" + pn + ")", configs.ws(P[pn]))
+    if os.environ.get("VERIF_ONLY_CTX"):          # development aid: one universe slice only
+        groups = [g for g in groups if g.meta.get("ctx") == os.environ["VERIF_ONLY_CTX"]]
     ctx.log("groups: %d" % len(groups))
     # heavier groups first
     groups.sort(key=lambda g: -(g.k * 10 + (1 if g.fam1 else 0)))
